@@ -43,7 +43,7 @@ META_COMMON = {
         "Go harness harness/cmd/mux: generator, concretisation of abstract access units into real NALUs / AUs / Opus packets, independent M3U8 reader and MPEG-TS demuxer, property oracles; lib/vlib.py",
     ],
     "assumptions": [
-        "H264 video, MPEG-4 Audio and Opus tracks are exercised by the correspondence run (H265, VP9, AV1 front ends are modelled but not yet concretised by the harness)",
+        "all six codecs are concretised by the harness (H264/H265 parameter sets and slices, VP9 frame headers, AV1 OBUs built from the specs and self-checked against mediacommon's parsers at start-up); H265 DTS extraction is exercised with reordering, the abstract dts is what the real extractor returns",
         "Track.ClockRate equals the init timescale of the codec (the documented usage)",
         "observations are taken between Write calls (one writer; the concurrent layer is C06-C08)",
     ],
